@@ -22,19 +22,24 @@ Record crypt_filter := { cf_method : method; cf_length : option N }.
 (* crypt.rs: struct CryptDict, after the derive has read it *)
 Record crypt_dict := {
   d_o : bytes; d_u : bytes; d_r : N; d_p : Z; d_v : Z; d_bits : N;
-  d_cf : list (bytes * crypt_filter); d_stmf : option bytes; d_em : bool;
+  d_cf : list (bytes * crypt_filter); d_stmf : option bytes; d_strf : option bytes; d_em : bool;
   d_oe : option bytes; d_ue : option bytes }.
 
 Definition oref := option (N * N).     (* Option<PlainRef> *)
 
 (* crypt.rs: struct Decoder *)
 Record decoder := {
-  k_size : N; k_key : bytes; k_method : method;
+  k_size : N; k_key : bytes; k_method : method; k_smethod : method;
   k_enc_obj : oref; k_meta_obj : oref; k_em : bool }.
 
+(* crypt.rs: Decoder::with_methods — [m] for streams (/StmF), [ms] for strings (/StrF) *)
+Definition decoder_with (key : bytes) (key_size : N) (m ms : method) (em : bool) : decoder :=
+  {| k_size := key_size; k_key := key; k_method := m; k_smethod := ms; k_enc_obj := None; k_meta_obj := None; k_em := em |}.
+
 (* crypt.rs: Decoder::new *)
-Definition decoder_new (key : bytes) (key_size : N) (m : method) (em : bool) : decoder :=
-  {| k_size := key_size; k_key := key; k_method := m; k_enc_obj := None; k_meta_obj := None; k_em := em |}.
+Definition decoder_new (key : bytes) (key_size : N) (m : method) (em : bool) : decoder := decoder_with key key_size m m em.
+
+Definition identity_name : bytes := [73; 100; 101; 110; 116; 105; 116; 121].     (* "Identity" *)
 
 Fixpoint bytes_eqb (a b : bytes) : bool :=
   match a, b with
@@ -130,30 +135,41 @@ Section Oracles.
     | (n, f) :: t => if bytes_eqb n name then Some f else cf_lookup name t
     end.
 
-  (* from_password: `let (key_bits, method) = match dict.v { … }` *)
-  Definition crypt_method (d : crypt_dict) : res (N * method) :=
-    if (d_v d =? 1)%Z then Ok (40, MV2)
+  (* from_password: fn crypt_filter — the filter named by /StmF resp. /StrF: the key length it states and its method;
+     an absent entry and the name Identity are the Identity filter (CryptMethod::None) *)
+  Definition crypt_filter_of (d : crypt_dict) (name : option bytes) : res (option N * method) :=
+    match name with
+    | None => Ok (None, MNone)
+    | Some nm =>
+        if bytes_eqb nm identity_name then Ok (None, MNone) else
+        match cf_lookup nm (d_cf d) with
+        | None => Err E_OTHER
+        | Some f =>
+            do bits <- match cf_length f with
+                       | Some n => if 8 * n <? 4294967296 then Ok (8 * n) else Err E_OTHER   (* checked_mul *)
+                       | None => Ok (d_bits d)
+                       end;
+            match cf_method f with
+            | MV2 => Ok (Some bits, MV2)
+            | MAESV2 => Ok (Some bits, MAESV2)
+            | MAESV3 => if (d_v d =? 5)%Z then Ok (Some bits, MAESV3) else Err E_OTHER
+            | MNone => Err E_OTHER
+            end
+        end
+    end.
+
+  (* from_password: `let (key_bits, method, string_method) = match dict.v { … }` *)
+  Definition crypt_method (d : crypt_dict) : res (N * method * method) :=
+    if (d_v d =? 1)%Z then Ok (40, MV2, MV2)
     else if (d_v d =? 2)%Z then
-      (if d_bits d mod 8 =? 0 then Ok (d_bits d, MV2) else Err E_OTHER)
+      (if d_bits d mod 8 =? 0 then Ok (d_bits d, MV2, MV2) else Err E_OTHER)
     else if (4 <=? d_v d)%Z && (d_v d <=? 6)%Z then
-      match d_stmf d with
-      | None => Err E_OTHER                                   (* try_opt! *)
-      | Some name =>
-          match cf_lookup name (d_cf d) with
-          | None => Err E_OTHER
-          | Some f =>
-              do bits <- match cf_length f with
-                         | Some n => if 8 * n <? 4294967296 then Ok (8 * n) else Err E_OTHER   (* checked_mul *)
-                         | None => Ok (d_bits d)
-                         end;
-              match cf_method f with
-              | MV2 => Ok (bits, MV2)
-              | MAESV2 => Ok (bits, MAESV2)
-              | MAESV3 => if (d_v d =? 5)%Z then Ok (bits, MAESV3) else Err E_OTHER
-              | MNone => Err E_OTHER
-              end
-          end
-      end
+      do a <- crypt_filter_of d (d_stmf d);
+      do b <- crypt_filter_of d (d_strf d);
+      Ok (match fst a with                                   (* stream_bits.or(string_bits).unwrap_or(dict.bits) *)
+          | Some x => x
+          | None => match fst b with Some y => y | None => d_bits d end
+          end, snd a, snd b)
     else Err E_OTHER.
 
   (* Decoder::revision_6_kdf: the `while` loop; [last] is data[data_total_len - 1] *)
@@ -178,7 +194,7 @@ Section Oracles.
   Definition r5_hash (password salt u : bytes) : res bytes := sha256 (password ++ salt ++ u).
 
   (* from_password, `level == 5 || level == 6` *)
-  Definition from_password_56 (fuel : nat) (level : N) (m : method) (d : crypt_dict) (pass : bytes) : res decoder :=
+  Definition from_password_56 (fuel : nat) (level : N) (m ms : method) (d : crypt_dict) (pass : bytes) : res decoder :=
     let u := d_u d in
     if negb (lenN u =? 48) then Err E_OTHER else
     let o := d_o d in
@@ -205,34 +221,35 @@ Section Oracles.
                 let '(ik, wrapped) := kw in
                 if negb (lenN wrapped mod 16 =? 0) then Err E_INVALID_PASSWORD      (* UnpadError *)
                 else do key <- aes_dec ik zero_iv wrapped;
-                     Ok (decoder_new key 32 m (d_em d || (d_v d <? 4)%Z))
+                     if negb (lenN key =? 32) then Err E_OTHER            (* Algorithm 2.A: the 32-byte file key *)
+                     else Ok (decoder_with key 32 m ms (d_em d || (d_v d <? 4)%Z))
             end
         end
     end.
 
   (* from_password, `level <= 4` *)
-  Definition from_password_rc4 (level : N) (key_bits : N) (m : method) (d : crypt_dict) (id pass : bytes) : res decoder :=
+  Definition from_password_rc4 (level : N) (key_bits : N) (m ms : method) (d : crypt_dict) (id pass : bytes) : res decoder :=
     let key_size := key_bits / 8 in
     if key_size =? 0 then Err E_OTHER else
     let em := d_em d || (d_v d <? 4)%Z in
     do key <- kd_user level key_size d id pass;
     do okk <- check_password_rc4 level (d_u d) id (take (N.min key_size 16) key);
-    if (okk : bool) then Ok (decoder_new key key_size m em)
+    if (okk : bool) then Ok (decoder_with key key_size m ms em)
     else
       do wrap <- kd_owner level key_size pass;
       do upw <- rc4_rounds (if level =? 2 then 1 else 20) 0 wrap (d_o d);
       do key <- kd_user level key_size d id upw;
       do okk <- check_password_rc4 level (d_u d) id (take key_size key);
-      if (okk : bool) then Ok (decoder_new key key_size m em) else Err E_INVALID_PASSWORD.
+      if (okk : bool) then Ok (decoder_with key key_size m ms em) else Err E_INVALID_PASSWORD.
 
   (* crypt.rs: Decoder::from_password *)
   Definition from_password (fuel : nat) (d : crypt_dict) (id pass : bytes) : res decoder :=
     do km <- crypt_method d;
-    let '(key_bits, m) := km in
+    let '(key_bits, m, ms) := km in
     let level := d_r d in
     if negb ((2 <=? level) && (level <=? 6)) then Err E_OTHER
-    else if level <=? 4 then from_password_rc4 level key_bits m d id pass
-    else from_password_56 fuel level m d pass.
+    else if level <=? 4 then from_password_rc4 level key_bits m ms d id pass
+    else from_password_56 fuel level m ms d pass.
 
   (* crypt.rs: Decoder::key — `&self.key[.. min(self.key_size, 16)]` *)
   Definition dkey (dc : decoder) : res bytes :=
@@ -246,13 +263,13 @@ Section Oracles.
     else do p <- aes_dec key iv ct;
          match pkcs7_unpad p with Some x => Ok x | None => Err E_DECRYPT end.
 
-  (* crypt.rs: Decoder::decrypt *)
-  Definition decrypt (dc : decoder) (id gen : N) (data : bytes) : res bytes :=
+  (* crypt.rs: Decoder::decrypt_with *)
+  Definition decrypt_with (m : method) (dc : decoder) (id gen : N) (data : bytes) : res bytes :=
     if oref_is (k_enc_obj dc) id gen then Ok data
     else if negb (k_em dc) && oref_is (k_meta_obj dc) id gen then Ok data
     else if lenN data =? 0 then Ok data
-    else match k_method dc with
-         | MNone => Panic 604                                       (* unreachable!() *)
+    else match m with
+         | MNone => Ok data                                         (* the Identity crypt filter *)
          | MV2 =>
              do k <- dkey dc;
              let n := lenN k in
@@ -269,21 +286,27 @@ Section Oracles.
              else aes_unpad 32 (k_key dc) (take 16 data) (drop 16 data)
          end.
 
+  (* crypt.rs: Decoder::decrypt — the data of a stream (/StmF) *)
+  Definition decrypt (dc : decoder) (id gen : N) (data : bytes) : res bytes := decrypt_with (k_method dc) dc id gen data.
+
+  (* crypt.rs: Decoder::decrypt_string — a string (/StrF) *)
+  Definition decrypt_string (dc : decoder) (id gen : N) (data : bytes) : res bytes := decrypt_with (k_smethod dc) dc id gen data.
+
   (* file.rs: load_storage_and_trailer_password — the two assignments after from_password.
      [encrypt_ref]: Some r iff the trailer's /Encrypt is `Primitive::Reference(r)`;
      [metadata_ref]: Some m iff /Root is a reference and the catalog's /Metadata is a reference. *)
   Definition install (dc : decoder) (encrypt_ref metadata_ref : oref) : decoder :=
-    {| k_size := k_size dc; k_key := k_key dc; k_method := k_method dc;
+    {| k_size := k_size dc; k_key := k_key dc; k_method := k_method dc; k_smethod := k_smethod dc;
        k_enc_obj := encrypt_ref; k_meta_obj := metadata_ref; k_em := k_em dc |}.
 
   Definition load_decoder (fuel : nat) (d : crypt_dict) (id0 pass : bytes) (encrypt_ref metadata_ref : oref) : res decoder :=
     do dc <- from_password fuel d id0 pass; Ok (install dc encrypt_ref metadata_ref).
 
-  (* parser/mod.rs: Context::decrypt — every string of an indirect object, with that object's id *)
+  (* parser/mod.rs: Context::decrypt — every string of an indirect object, with that object's id, through Decoder::decrypt_string *)
   Definition ctx_decrypt (dc : option decoder) (id gen : N) (s : bytes) : res bytes :=
-    match dc with Some k => decrypt k id gen s | None => Ok s end.
+    match dc with Some k => decrypt_string k id gen s | None => Ok s end.
 
-  (* file.rs: Storage::decode — decrypt, then the filters in order *)
+  (* file.rs: Storage::decode — Decoder::decrypt (the stream method), then the filters in order *)
   Definition storage_decode (filters : bytes -> res bytes) (dc : option decoder) (id gen : N) (raw : bytes) : res bytes :=
-    do x <- ctx_decrypt dc id gen raw; filters x.
+    do x <- (match dc with Some k => decrypt k id gen raw | None => Ok raw end); filters x.
 End Oracles.
